@@ -199,15 +199,30 @@ def describe_ref(r):
     return "%s error of <%s>%s" % (r["kind"], r["callee_role"], "" if r.get("args") is None else "(%s)" % ", ".join(show_region(a) if isinstance(a, tuple) else str(a) for a in r["args"]))
 
 
+def loosen(x):
+    """Forget split *direction* (first/last occurrence) in region terms: which occurrence separates two
+    components is the GRAMMAR rule's business (C02); the fault rows only care which component is looked at."""
+    if isinstance(x, tuple):
+        if len(x) == 3 and isinstance(x[0], str) and x[0] in ("RSplitL", "SplitL", "RSplitLOpt", "SplitLOpt", "RSplitR", "SplitR", "RSplitROpt", "SplitROpt"):
+            k = x[0].replace("RSplit", "Split")
+            return (k, x[1], loosen(x[2]))
+        if len(x) == 5 and x[0] == "found":
+            return ("found", "Split", x[2], loosen(x[3]), x[4])
+        return tuple(loosen(y) for y in x)
+    if isinstance(x, (set, frozenset)):
+        return frozenset(loosen(y) for y in x)
+    return x
+
+
 def row_matches(facts, rl, inv, ref, row):
     if ref["kind"] == "err":
         if row["kind"] != "err" or row["error"] != ref["error"]:
             return False
         trigs = set(row.get("triggers", []))
         if "trigger" in ref:
-            return trigs == {ref["trigger"]}
+            return loosen(trigs) == loosen({ref["trigger"]})
         if "triggers" in ref:
-            return trigs == ref["triggers"]
+            return loosen(trigs) == loosen(ref["triggers"])
         tk = ref["trigger_kind"]
         if tk == "occupied":
             return len(trigs) == 1 and all(t[0] == "is" and t[-1] == "Occupied" and "Qualifiers::entry" in t[1] for t in trigs)
@@ -254,7 +269,7 @@ def row_matches(facts, rl, inv, ref, row):
             elif w == "qualifiers":
                 if not (isinstance(a, tuple) and a[0] == "Field" and a[1].endswith(".qualifiers")):
                     return False
-            elif a != w:
+            elif loosen(a) != loosen(w):
                 return False
         return True
     return False
